@@ -43,6 +43,8 @@ var sdScenarios = []sdScenario{
 	{Name: "producer-backoff", Component: "producer", Variant: "backoff", Faults: []int{fRetryNoAppend, fRetryNoAppend}, KMax: 100},
 	{Name: "producer-unreachable", Component: "producer", Variant: "unreachable", KMax: 80},
 	{Name: "producer-sync", Component: "producer", Variant: "sync", Faults: []int{fOk, fRetryNoAppend}, KMax: 100},
+	{Name: "producer-no-errors-channel", Component: "producer", Variant: "no-errors", Faults: []int{fOk, fFatal, fOk, fFatal}, KMax: 100},
+	{Name: "producer-no-successes-channel", Component: "producer", Variant: "no-successes", Faults: []int{fOk, fRetryNoAppend, fFatal}, KMax: 100},
 	{Name: "pconsumer-idle", Component: "pconsumer", Variant: "idle", KMax: 30},
 	{Name: "pconsumer-mid-fetch", Component: "pconsumer", Variant: "busy", KMax: 120},
 	{Name: "pconsumer-slow-reader", Component: "pconsumer", Variant: "slow", KMax: 120},
@@ -402,6 +404,16 @@ func sdProducer(r *sdRun, rng *rand.Rand) {
 	if r.sc.Variant == "backoff" {
 		conf.Producer.Retry.Backoff = 25 * time.Millisecond
 	}
+	// one of the two outcome channels switched off (failures / successes are then only logged);
+	// some messages are refused by the producer itself (too large), others by the cluster
+	if r.sc.Variant == "no-errors" {
+		conf.Producer.Return.Errors = false
+		conf.Producer.MaxMessageBytes = 200
+	}
+	if r.sc.Variant == "no-successes" {
+		conf.Producer.Return.Successes = false
+		conf.Producer.MaxMessageBytes = 200
+	}
 	var fi int32
 	faults := r.sc.Faults
 	r.sim.OnProduce = func(ctx *sarama.VSimProduceCtx) sarama.VSimProduceAction {
@@ -416,6 +428,8 @@ func sdProducer(r *sdRun, rng *rand.Rand) {
 			return sarama.VSimProduceAction{Kind: sarama.VPErrAfterAppend, Code: sarama.ErrRequestTimedOut}
 		case fDropAfter:
 			return sarama.VSimProduceAction{Kind: sarama.VPDropAfter}
+		case fFatal:
+			return sarama.VSimProduceAction{Kind: sarama.VPErrNoAppend, Code: sarama.ErrInvalidTopic}
 		}
 		return sarama.VSimProduceAction{}
 	}
@@ -509,6 +523,9 @@ func sdProducer(r *sdRun, rng *rand.Rand) {
 		}
 		for i := 0; i < n; i++ {
 			m := &sarama.ProducerMessage{Topic: "t", Partition: int32(i % 2), Value: sarama.StringEncoder(fmt.Sprintf("%d:x", i))}
+			if conf.Producer.MaxMessageBytes == 200 && i%5 == 3 {
+				m.Value = sarama.StringEncoder(fmt.Sprintf("%d:%s", i, strings.Repeat("y", 400))) // refused by the producer: too large
+			}
 			select {
 			case ap.Input() <- m:
 				atomic.AddInt64(&r.app, 1)
